@@ -51,11 +51,15 @@ def make_config(rng):
         ref_lon = float(rng.choice([-10 ** rng.uniform(-6, -3.5), 180.0 - 10 ** rng.uniform(-6, -3.5)]))
     R = 6_371_000.0
     towers = []
+    nt_seed = int(zref * 1e6)
     for k in range(nt):
         x, y = float(rng.uniform(0, xmax)), float(rng.uniform(0, ymax))
         if rng.random() < 0.1:   # a tower well outside the flux map (beyond the default halo width in one direction)
             x, y = float(rng.choice([-1.4, 2.6]) * xmax), float(rng.uniform(-0.5, 1.5) * ymax)
-        towers.append({"name": f"tw{k}_{int(rng.integers(100))}", "lat": ref_lat + math.degrees(y / R),
+        # (one configuration in five names its towers the way site codes and run ids look: strings that read as numbers, exponent
+        # forms without a dot, YAML 1.1 truth words, dates - yaml.safe_dump quotes what its own loader would misread)
+        odd_names = ["4e2", "12E1", "007", "1_000", "yes", "No", "on", "null", "~", "2024-06-01", "0x1F", "1:30", ".5", "+3"]
+        towers.append({"name": (f"{odd_names[(k * 5 + nt_seed) % len(odd_names)]}" if nt_seed % 5 == 0 else f"tw{k}_{int(rng.integers(100))}"), "lat": ref_lat + math.degrees(y / R),
                        "lon": ref_lon + math.degrees(x / (R * math.cos(math.radians(ref_lat)))), "z_m": float(rng.uniform(2, 12))})
     dom = {"nx": nx, "ny": ny, "xmax": xmax, "ymax": ymax, "nz": nz, "ref_lat": ref_lat, "ref_lon": ref_lon}
     if rng.random() < 0.6:
